@@ -606,6 +606,7 @@ def run_program(env, cfg, prog, record=True, plain=False, fault=None):
     refs = {}
     outcomes = []
     kept_activities = []
+    conn_rolled_back = False
     classes = env.classes
 
     def lookup(c, key):
@@ -756,6 +757,22 @@ def run_program(env, cfg, prog, record=True, plain=False, fault=None):
                         a.target = t
                     s.add(a)
                     kept_activities.append(a)
+                elif kind == 'conn_rollback':
+                    # the transaction of the underlying connection is rolled back from outside the session
+                    if rec:
+                        rec.cur = None
+                    env.connection.rollback()
+                    conn_rolled_back = True
+                elif kind == 'close':
+                    active = s.in_transaction() or conn_rolled_back
+                    if rec:
+                        rec.cur = None
+                    s.close()
+                    refs.clear()
+                    sp_handles[:] = []
+                    conn_rolled_back = False
+                    if active:
+                        mark('rollback')
                 elif kind == 'sp_begin':
                     sp_handles.append(s.begin_nested())
                     mark('spbegin')
